@@ -322,8 +322,14 @@ def run_cases(ctx, h, drv, queries, tagname):
     chunks = [queries[off:off + B] for off in range(0, len(queries), B)]
 
     def one(chunk):
-        rc, out, err = ctx.run_lines([h], chunk, timeout=1200)
-        out = [l for l in out if " => " in l]
+        # rc 127 = the shared libsimgrid.so is being re-linked by another check's ensure_simgrid: wait and retry
+        for attempt in range(6):
+            rc, out, err = ctx.run_lines([h], chunk, timeout=1200)
+            out = [l for l in out if " => " in l]
+            if rc != 127 and "error while loading shared libraries" not in err:
+                break
+            import time
+            time.sleep(20)
         return rc, out, err, chunk
 
     lines = []
@@ -344,7 +350,12 @@ def calibrate(ctx, h):
     """the platform arithmetic: an activity alone on its private resources lasts exactly the duration asked for"""
     qs = ["calib e 1/4", "calib e 1/4294967296", "calib e 0", "calib c 3/1024", "calib c 4194305/4294967296",
           "calib i 1/2", "calib i 3/4294967296", "calib i 0", "calib e 4095/1024", "calib c 4095/1024"]
-    rc, out, err = ctx.run_lines([h], qs)
+    for attempt in range(6):
+        rc, out, err = ctx.run_lines([h], qs)
+        if rc != 127 and "error while loading shared libraries" not in err:
+            break
+        import time
+        time.sleep(20)
     ok = rc == 0 and len(out) == len(qs)
     if ok:
         for q, l in zip(qs, out):
@@ -389,10 +400,12 @@ def decide(ctx, results, ncorpus):
         elif v.startswith("MONFAIL"):
             ctx.violation(v, {"query": q, "impl": l, "verdict": v}, key=key_of(v))
         elif v.startswith("DISAGREE"):
-            # the monitor holds on this log but the model (= the code as it was proved about) does not produce it:
-            # the implementation's behaviour changed on this input
-            ctx.violation("the implementation's log is not a behaviour of the model of the time core: " + v[:600],
-                          {"query": q, "impl": l, "verdict": v}, key=None)
+            # the monitor holds on this log but the model (= the code as it was proved about) cannot produce it: the
+            # correspondence is broken on this input (guide §5); run_property then searches harder for a failing input
+            if len([b for b in ctx.broken if b.get("kind") == "disagree"]) < 5:
+                ctx.broken.append({"kind": "disagree", "query": q, "impl": l[:1500], "verdict": v[:600]})
+            else:
+                ctx.cov["more_disagreements"] = ctx.cov.get("more_disagreements", 0) + 1
         else:
             ctx.broken.append({"kind": "badline", "query": q, "verdict": v[:300]})
     ctx.cov["classes_hit"] = classes
@@ -410,7 +423,11 @@ def run_property(ctx, style, n_quick, n_thorough):
         return
     corpus = [l.strip() for l in open(os.path.join(ctx.pdir, "corpus.txt")) if l.strip() and not l.startswith("#")]
     if ctx.replay:
-        queries = [json.load(open(ctx.replay))["case"]["query"]]
+        rep = json.load(open(ctx.replay))
+        if "case" in rep:
+            queries = [rep["case"]["query"]]
+        else:       # replay file of a broken correspondence: the disagreeing programs
+            queries = [b["query"] for b in rep.get("broken", []) if isinstance(b, dict) and "query" in b]
         corpus = []
     else:
         from vlib.core import SplitMix
@@ -422,3 +439,18 @@ def run_property(ctx, style, n_quick, n_thorough):
         queries = corpus + progs
     results = run_cases(ctx, h, drv, queries, style)
     decide(ctx, results, len(corpus))
+    if ctx.broken and not ctx.violations and not ctx.replay:
+        # search mode: proof / build / correspondence broke without a failing input: look harder (5x more programs
+        # of all three styles) for an input on which the implementation fails the monitor
+        from vlib.core import SplitMix
+        n = (n_quick if ctx.tier == "quick" else n_thorough) * 5 // 3
+        extra = []
+        for j, st in enumerate(("c03", "c12", "mix")):
+            extra += gen_programs(SplitMix(ctx.seed).fork(1000 + j), n, st)[0]
+        saved = list(ctx.broken)
+        for q, l, v in run_cases(ctx, h, drv, extra, "search"):
+            ctx.cov["evaluations"] += 1
+            if v.startswith("MONFAIL"):
+                ctx.violation(v, {"query": q, "impl": l, "verdict": v}, key=key_of(v))
+        ctx.broken[:] = saved + [b for b in ctx.broken if b not in saved]
+        ctx.cov["search_mode_programs"] = len(extra)
